@@ -389,6 +389,18 @@ var binD = func() []byte {
 	return m.Encode()
 }()
 
+// binE has a START-SECTION function that calls xh.boom(4) (which only yields) and returns, and a memory of
+// its own (allocated by a counting allocator): whatever happens around its instantiation -- a runtime
+// close while the start function runs -- the memory is released when everything is closed.
+var binE = func() []byte {
+	m := &wasmb.Module{Mem: &wasmb.Limits{Min: 1, Max: 1, HasMax: true}}
+	ti := m.AddType([]wasmb.ValType{wasmb.I32}, nil)
+	m.Imports = append(m.Imports, wasmb.Import{Module: "xh", Name: "boom", Kind: wasmb.KindFunc, TypeIdx: ti})
+	st := m.AddFunc(nil, nil, nil, (&wasmb.Code{}).I32Const(4).Call(0).B, "")
+	m.Start = &st
+	return m.Encode()
+}()
+
 const knownCompiledErr = "source module must be compiled before instantiation"
 
 type planOp struct {
@@ -692,7 +704,8 @@ func (c10) Run(t *tape.Tape, cfg sim.Config) (res sim.Result) {
 	}
 	var seq int64
 	transients := map[int]*transient{} // by task id
-	var cmD wazero.CompiledModule
+	var cmD, cmE wazero.CompiledModule
+	var memAllocs, memFrees atomic.Int64
 	if !withHandles {
 		if _, err := rt.NewHostModuleBuilder("xh").NewFunctionBuilder().WithFunc(func(_ context.Context, mod api.Module, kind uint32) {
 			if cur := simrt.Current(); cur != nil {
@@ -704,6 +717,14 @@ func (c10) Run(t *tape.Tape, cfg sim.Config) (res sim.Result) {
 				panic(sys.NewExitError(3))
 			case 2:
 				panic(sys.NewExitError(0))
+			case 4:
+				// (a start-section function: it returns normally after giving the others a turn)
+				if cur := simrt.Current(); cur != nil {
+					delete(transients, cur.ID)
+				}
+				simrt.Yield("host.start-section")
+				simrt.Yield("host.start-section")
+				return
 			}
 			panic("boom")
 		}).Export("boom").Instantiate(ctx); err != nil {
@@ -711,6 +732,9 @@ func (c10) Run(t *tape.Tape, cfg sim.Config) (res sim.Result) {
 		}
 		var err error
 		if cmD, err = rt.CompileModule(ctx, binD); err != nil {
+			panic(err)
+		}
+		if cmE, err = rt.CompileModule(ctx, binE); err != nil {
 			panic(err)
 		}
 	}
@@ -731,12 +755,24 @@ func (c10) Run(t *tape.Tape, cfg sim.Config) (res sim.Result) {
 				p.name = tape.Pick(t, []string{"a", "b", "hostm"})
 			}
 			if k == opInst && !withHandles && t.Chance(1, 5) {
-				p.start = 1 + t.Choose(3)
+				p.start = 1 + t.Choose(4)
 			}
 			if (k == opCompile || k == opCloseCompiled) && !withHandles {
 				p.bin = 2 // a binary nobody instantiates
 			}
 			plans[c] = append(plans[c], p)
+		}
+	}
+	// faults with workload: an instantiation whose start-section function yields is paired with a runtime
+	// close by another client (half of the time)
+	for c := range plans {
+		for _, p := range plans[c] {
+			if p.start == 4 && t.Chance(1, 2) {
+				o := (c + 1 + t.Choose(nclients-1)) % nclients
+				at := t.Choose(len(plans[o]) + 1)
+				plans[o] = append(plans[o][:at], append([]planOp{{kind: opRtClose, code: uint32(t.Choose(4))}}, plans[o][at:]...)...)
+				break
+			}
 		}
 	}
 	// scheduling policy
@@ -801,7 +837,7 @@ func (c10) Run(t *tape.Tape, cfg sim.Config) (res sim.Result) {
 	for i := range clients {
 		clients[i] = &clientState{}
 	}
-	startFailures := 0
+	startFailures, startSections := 0, 0
 	doOp := func(c int, p planOp) {
 		cs := clients[c]
 		in := input{Kind: p.kind, Name: p.name, Bin: p.bin, Code: p.code}
@@ -859,7 +895,14 @@ func (c10) Run(t *tape.Tape, cfg sim.Config) (res sim.Result) {
 				}))
 				var mod api.Module
 				var err error
-				if p.start > 0 {
+				if p.start == 4 {
+					actx := experimental.WithMemoryAllocator(nctx, experimental.MemoryAllocatorFunc(func(cap, max uint64) experimental.LinearMemory {
+						memAllocs.Add(1)
+						return &countingMem{frees: &memFrees}
+					}))
+					mod, err = rt.InstantiateModule(actx, cmE, wazero.NewModuleConfig().WithName(p.name))
+					startSections++
+				} else if p.start > 0 {
 					cur := simrt.Current()
 					delete(transients, cur.ID)
 					mod, err = rt.InstantiateModule(nctx, cmD, wazero.NewModuleConfig().WithName(p.name).WithStartFunctions(fmt.Sprintf("s%d", p.start)))
@@ -1003,6 +1046,7 @@ func (c10) Run(t *tape.Tape, cfg sim.Config) (res sim.Result) {
 	res.Stat("probe.yields", int64(s.Yields))
 	res.Stat("probe.policy_"+[]string{"uniform", "pct", "sequential"}[policy], 1)
 	res.Stat("probe.instantiations_failing_in_a_start_function_after_registration", int64(startFailures))
+	res.Stat("probe.instantiations_with_a_start_section_function_yielding", int64(startSections))
 	res.Nontrivial = s.Switches > 0
 	res.Shape = sim.ShapeOf(s.Trace...)
 	for _, o := range hist {
@@ -1121,6 +1165,14 @@ func (c10) Run(t *tape.Tape, cfg sim.Config) (res sim.Result) {
 				return
 			}
 			res.Known = appendOnce(res.Known, "compiled-entry-deleted-by-other-handle")
+		}
+	}
+	// every allocator memory handed out is freed once the runtime is closed
+	if memAllocs.Load() > 0 {
+		rt.Close(ctx)
+		if a, f := memAllocs.Load(), memFrees.Load(); a != f {
+			res.Fail("resource-not-released", "%d instantiations with a start-section function took a memory from the allocator (some while the runtime was being closed); after every module and the runtime are closed %d of them were freed", a, f)
+			return
 		}
 	}
 	// linearizability
